@@ -2029,7 +2029,7 @@ func TestZZVerifC07Walk(t *testing.T) {
 	if len(in.groups) > 0 {
 		// Every search of the code under test allocates its 1.6 MB read
 		// buffer anew; collect less often.
-		defer debug.SetGCPercent(debug.SetGCPercent(100))
+		defer debug.SetGCPercent(debug.SetGCPercent(1600))
 
 		if in.cfg.WalkLen <= 0 {
 			in.cfg.WalkLen = 40
